@@ -55,48 +55,64 @@ THEOREMS = [
     "Lena.C19.run_fresh_full_fails",
     "Lena.C19.sepCore_fresh",
     "Lena.C19.downCore_spec",
-    "Lena.C19.runPlot_eq_sepCore",
+    "Lena.C19.runPlots_fresh",
+    "Lena.C19.grpCore_fresh",
+    "Lena.C19.group_fresh_partial",
+    "Lena.C19.group_history_fresh_partial",
     "Lena.C19.idle_run_is_noop",
     "Lena.C19.settled_run_is_noop",
-    "Lena.C19.changed_sticky",
+    "Lena.C19.group_settled_run_is_noop",
+    "Lena.C19.group_idle_run_is_noop",
+    "Lena.C19.stale_when_csv_missing",
+    "Lena.C19.stale_when_tex_missing",
+    "Lena.C19.grp_stale_when_nothing_rewritten",
+    "Lena.C19.pdf_kept_when_sources_settled",
+    "Lena.C19.fresh_when_all_sources_missing",
+    "Lena.C19.fresh_when_latex_overwrites",
     "Lena.C19.changed_sticky_plot",
-    "Lena.C19.writeCore_sticky",
+    "Lena.C19.overwrite_rewrites_and_relaunches",
     "Lena.C19.writeCore_changed_content",
-    "Lena.C19.writeCore_created_leaves_changed",
+    "Lena.C19.group_changed_sticky",
+    "Lena.C19.group_changed_after_mapgroup",
     "Lena.C19.makefilename_keeps_existing",
     "Lena.C19.makefilename_prefix_suffix_once",
     "Lena.C19.makefilename_second_has_no_prefix",
     "Lena.C19.makefilename_prefix_accumulates",
-    "Lena.C19.makefilename_init_rules",
     "Lena.C19.write_path_rule",
     "Lena.C19.write_file_at_path",
-    "Lena.C19.write_empty_filename",
-    "Lena.C19.groupPlotsChanged_iff",
-    "Lena.C19.combineChanged_spec",
-    "Lena.C19.group_changed_sticky",
-    "Lena.C19.group_changed_after_mapgroup",
-    "Lena.C19.grpCore_fresh",
-    "Lena.C19.group_fresh_partial",
-    "Lena.C19.runPlots_fresh",
-    "Lena.C19.tailStage_eq_downCore",
-    "Lena.C19.stale_when_csv_missing",
-    "Lena.C19.stale_when_tex_missing",
-    "Lena.C19.fresh_when_all_sources_missing",
-    "Lena.C19.group_history_fresh_partial",
+    "Lena.C19.write_writer_changed",
+    "Lena.C19.write_not_writable_passes",
+    "Lena.C19.latexHandle_failed",
+    "Lena.C19.latexRun_yields_iff_ok",
     "Lena.C19.getTemplate_current",
     "Lena.C19.run_independent_of_previous_runs",
     "Lena.C19.object_history_eq_fresh",
-    "Lena.C19.write_not_writable_passes",
-    "Lena.C19.write_writer_changed",
-    "Lena.C19.sourceClosedB_iff",
-    "Lena.C19.unitFreshB_iff",
+]
+# true by unfolding, refinements between two Lean definitions, Boolean/Prop glue, helper lemmas: audited, not counted
+# as proof obligations of the property
+AUX_THEOREMS = [
+    "Lena.C19.runPlot_eq_sepCore",
+    "Lena.C19.tailStage_eq_downCore",
+    "Lena.C19.runGroup_refines",
     "Lena.C19.specSeparate_refines",
     "Lena.C19.specRun_refines",
-    "Lena.C19.fresh_when_latex_overwrites",
     "Lena.C19.runScalarPlot_eq_runPlot",
-    "Lena.C19.mapGroupGuard_ok",
+    "Lena.C19.runScalarPlots_eq_runPlots",
+    "Lena.C19.sourceClosedB_iff",
+    "Lena.C19.unitFreshB_iff",
     "Lena.C19.popReturned_perm",
-    "Lena.C19.latexRun_yields_iff_ok",
+    "Lena.C19.mapGroupGuard_ok",
+    "Lena.C19.write_empty_filename",
+    "Lena.C19.writeCore_created_leaves_changed",
+    "Lena.C19.makefilename_init_rules",
+    "Lena.C19.groupPlotsChanged_iff",
+    "Lena.C19.combineChanged_spec",
+    "Lena.C19.changed_sticky",
+    "Lena.C19.writeCore_sticky",
+    "Lena.C19.membersCore_quiet",
+    "Lena.C19.membersCore_noop",
+    "Lena.C19.latexCore_false_world",
+    "Lena.C19.mfCall_filename_noop",
 ]
 CASE_TIMEOUT = 20
 
@@ -853,6 +869,9 @@ def model_requests(case):
                 if now != (r["layout"], r["tpl"]):
                     now, edits = (r["layout"], r["tpl"]), edits + 1
                 st = dict(st, run=dict(r, tplm=edits))
+            if case.get("stub") == "proc":
+                # real subprocesses cannot be scheduled or interrupted by the harness: a plain run
+                st = {k: v for k, v in st.items() if k not in ("interrupt", "late")}
             steps.append(st)
         return [{"op": "hist", "reuse": bool(case.get("reuse")), "watch": [], "steps": steps}]
     if op in ("write", "latex", "png", "latexrun"):
@@ -1264,6 +1283,30 @@ def _oracle_stage(case, res):
     raise ValueError(op)
 
 
+def _known_class(rs, u, pre, e_csv, e_tex, data_of):
+    """The class of the known finding for one unit (Python side of the Lean characterisation): the pdf existed, a
+    source file was missing at the start, LaTeXToPDF(overwrite) is off, and no source makes its Write say "changed":
+    every source that was on disk is kept (same content, or existing_unchanged) by a Write that does not overwrite.
+    Separate layout: exactly one of csv / tex missing (both missing: `changed` stays unset, the modification times
+    are compared and the pdf is regenerated — fresh_when_all_sources_missing).  Group: any subset missing
+    (grp_stale_when_nothing_rewritten)."""
+    if u["pdf"] not in pre or rs["lo"]:
+        return False
+
+    def quiet(p, mode, new):
+        return p not in pre or (mode != "ow" and (mode == "eu" or pre[p] == new))
+    csv_new = {p: {"csv": data_of[p]} for p in u["csvs"]}
+    tex_new = {"tex": rs["tpl"], "deps": u["csvs"]}
+    missing = [p for p in u["csvs"] + [u["tex"]] if p not in pre]
+    if not missing:
+        return False
+    if not all(quiet(p, rs["w1"], csv_new[p]) for p in u["csvs"]) or not quiet(u["tex"], rs["w2"], tex_new):
+        return False
+    if u["val"]["group"] is None and len(missing) == len(u["csvs"]) + 1:
+        return False
+    return True
+
+
 def _units(rs, run):
     """The plots of a run as units {base, csvs, tex, pdf, png, val}: taken from the yielded values."""
     units = []
@@ -1349,7 +1392,10 @@ def hist_failures(case, res, facts=None):
         units = _units(rs, run)
         data_of = {}
         if rs["layout"] == "group":
+            want_csvs = [_ref_base(rs, pl["name"]) + ".csv" for pl in rs["plots"]]
             for u in units:
+                if u["csvs"] != want_csvs:
+                    fails.append(("violation", f"{tag}: the group names the member files {u['csvs']}, the naming rules give {want_csvs}"))
                 for p, pl in zip(u["csvs"], rs["plots"]):
                     data_of[p] = pl["data"]
         else:
@@ -1418,14 +1464,20 @@ def hist_failures(case, res, facts=None):
                 new_tainted.add(u["base"])
                 what = (f"{tag}: {u['pdf']} (and {u['png']}) is stale: rendered from {jdump(files[u['pdf']]['pdf'] if 'pdf' in files[u['pdf']] else files[u['pdf']])[:300]}, "
                         f"current sources give {jdump(e_pdf['pdf'])[:300]}")
-                if src_missing and u["pdf"] in pre and not (v["group"] is None and len(src_missing) == len(srcs)):
-                    # the known finding: a re-created source file does not set output.changed.  (With *all* sources
-                    # of a separate plot missing `changed` stays unset and LaTeXToPDF compares modification times,
-                    # which regenerates the pdf: staleness there is not covered by the finding.)
+                if _known_class(rs, u, pre, e_csv, e_tex, data_of):
+                    # the known finding, exactly as characterised in Lean (stale_when_csv_missing,
+                    # stale_when_tex_missing, grp_stale_when_nothing_rewritten): a re-created source file does not
+                    # set output.changed and nothing else makes the converters run
                     fails.append(("known", what + f"; the run started without {src_missing} while {u['pdf']} existed"))
-                elif (u["base"] in tainted and not src_written and not src_missing and u["pdf"] in pre
-                      and files[u["pdf"]] == pre[u["pdf"]] and not rs["lo"]):
-                    pass       # consequence of the failure already reported for an earlier run
+                elif (u["base"] in tainted and rs["w1"] != "ow" and rs["w2"] != "ow" and not rs["lo"]
+                      and not src_missing and u["pdf"] in pre
+                      and all(pre[p] == e_csv[p] for p in u["csvs"]) and pre[u["tex"]] == e_tex
+                      and files[u["pdf"]] == pre[u["pdf"]]):
+                    # the pdf was already stale (reported for an earlier run) and its sources are settled: no Write
+                    # says "changed", so the pdf is kept as it is (pdf_kept_when_sources_settled /
+                    # grp_stale_when_nothing_rewritten): the finding persists until a source is rewritten or the
+                    # pdf is removed
+                    pass
                 else:
                     fails.append(("violation", what + f"; sources written in this run: {src_written}, missing at start: {src_missing}"))
             # -- nothing unchanged is redone
@@ -1443,7 +1495,14 @@ def hist_failures(case, res, facts=None):
             changed_files = [p for p in srcs + [u["pdf"], u["png"]] if p in pre and files[p] != pre[p]]
             if changed_files and o.get("changed") is not True:
                 fails.append(("violation", f"{tag}: the content of {changed_files} changed but the yielded output.changed is {o.get('changed')!r}"))
-        # files nobody asked for
+        # no file outside the plots' own files is created, changed or removed
+        own = set()
+        for u in units:
+            own.update(u["csvs"] + [u["tex"], u["pdf"], u["png"]])
+        for p in sorted((set(files) | set(pre)) - own):
+            if files.get(p) != pre.get(p):
+                fails.append(("violation", f"{tag}: {p} does not belong to a plot of this run but was "
+                              f"{'created' if p not in pre else 'changed or removed'}"))
         prev = files
         tainted = new_tainted
     return fails
@@ -1490,7 +1549,12 @@ def signature(case, failure):
 def nontrivial(case, res):
     if case["op"] == "hist":
         return len(res["runs"]) >= 2 and all("e" not in r for r in res["runs"])
-    return True
+    # stage cases: something was written, launched, renamed or refused
+    if "e" in res:
+        return True
+    if "files" in res:
+        return any(f["w"] for f in res["files"].values()) or bool(res.get("log"))
+    return case["op"] in ("mf", "wmf", "wdir", "uwg", "mgmulti", "render", "render2", "seltpl") and bool(res)
 
 
 def classify(case, res):
@@ -1827,10 +1891,10 @@ def _base_histories(ctx):
     alpha1 = list(_alphabet("separate", 1, std))
     for st in alpha1:
         yield {"op": "hist", "steps": [first, st]}
-    # ... and with every option setting (quick: every second step of each setting's alphabet)
+    # ... and with every option setting (quick: every third step of each setting's alphabet)
     for i, cfg in enumerate(ALL_CFGS[1:]):
         for j, st in enumerate(_alphabet("separate", 1, [cfg])):
-            if thorough or (i + j) % 2 == 0:
+            if thorough or (i + j) % 3 == 0:
                 yield {"op": "hist", "steps": [first, st]}
     # E: a group of two plots, the whole alphabet (256 steps) after a first run
     gfirst = _run_step(_cfg(), "group", 1, [1, 1])
@@ -1918,9 +1982,9 @@ def _base_histories(ctx):
                 yield {"op": "hist", "pdflatex": pdflatex,
                        "steps": [_run_step(cfg, "separate", 1, [1]), _run_step(cfg, "separate", 1, [2])]}
     if not thorough:
-        for _ in range(500):
+        for _ in range(350):
             yield {"op": "hist", "steps": [first, rng.choice(alpha1), rng.choice(alpha1)]}
-        for _ in range(250):
+        for _ in range(200):
             yield _random_history(rng)
         for _ in range(150):
             yield _random_history(rng, const_cfg=True)
@@ -2064,28 +2128,60 @@ TRUSTED = [
 ]
 ASSUMPTIONS = [
     "converters are deterministic functions of the text of the file they are given and of the files that text names; a "
-    "subprocess is modelled as running to completion at launch (plots with different file names do not interfere)",
+    "LaTeX command either succeeds (writes the pdf, return code 0) or fails (writes nothing, return code 1); the pdf is "
+    "written at launch, and when a process is seen terminated is decided by the schedule of the case (latexRun / "
+    "popReturned model the pool; latexHandle_failed, latexRun_yields_iff_ok).  Whole-pipeline histories and the "
+    "freshness theorems assume commands that succeed",
+    "EXECUTION ORDER: the theorems about several plots take every plot through the whole pipeline before the next one "
+    "(runPlots); the real Sequence is lazy and interleaves plots (LaTeXToPDF pulls the next value before it hands the "
+    "previous pdf on).  This is unobservable when plots have files of their own, which is a HYPOTHESIS of the theorems "
+    "(UnitsOK / FUnit.Distinct / GroupOK.nodup, distinct: the files of one plot differ, plots share no file) — not a "
+    "consequence of the naming functions (e.g. MakeFilename(fileext=\"pdf\") would make a plot's csv file its own pdf; "
+    "several plots with one name: compared with the model only).  The order of the yielded values is not part of the "
+    "property and is compared only in the LaTeXToPDF flow cases",
+    "FRESHNESS WITH existing_unchanged: `exactly the content produced from the current data` is read through "
+    "`effective`: a Write(existing_unchanged=True) keeps an existing source file as it is (its documented contract), and "
+    "the pdf/png must then match the file on disk; UnitFresh / PlotFresh and the oracle (e_csv, e_tex) are stated so",
+    "PATH CLAUSE: for the values the pipeline yields at the end, context.output.fileext is still `tex` and "
+    "output.filepath the .tex file (LaTeXToPDF / PDFToPNG update only output.filetype, as documented); `exists at "
+    "output_directory/dirname/filename.fileext` is read as: the named file is output_directory/dirname/filename plus "
+    "the extension of its kind (csv, tex, pdf, png), all four exist; the literal clause is proved for the values Write "
+    "yields (write_path_rule, write_file_at_path).  Judged a reading of the statement, not a defect",
+    "HISTORIES: one fixed set of plot names, one layout and one naming configuration per history (the theorems: every "
+    "run resolves to the same units `us`); data, template, option settings and the set of deleted files vary.  Two "
+    "different pipelines sharing files (a separate run, then a group run over the same csv files) are outside: `files "
+    "are only changed by the pipeline and by the deletions of the history`",
+    "A run that raises leaves the model world unchanged (`step`); the real code leaves what it wrote before the "
+    "exception.  No theorem concludes anything from a raising run (the freshness theorems prove `.ok`), the harness stops "
+    "a history at an exception; object_history_eq_fresh passes through that branch identically on both sides",
+    "KNOWN FINDING: filed under the known signature are exactly the stale pdfs characterised in Lean "
+    "(stale_when_csv_missing, stale_when_tex_missing, grp_stale_when_nothing_rewritten: pdf on disk, a source missing, "
+    "LaTeXToPDF(overwrite) off, every source on disk kept by a non-overwriting Write); a pdf that stays stale in later "
+    "settled runs is a consequence (pdf_kept_when_sources_settled) and not reported again.  Ctrl-C is not a fault the "
+    "property quantifies over: after an interrupted run with unfinished commands only the pool clean-up and the number "
+    "of yielded values are judged",
     "files are only changed by the pipeline and by the deletions of the history; modification times are strictly "
-    "increasing along writes (mtime granularity is outside the model)",
-    "ToCSV and jinja2 are functions of their input: csvOf(data), texOf(template, paths of the csv files); the harness "
-    "checks the texts against an independent formula / the template it wrote",
-    "contexts: only context.output and the key `name` are modelled; file-name templates are literals and {{name}}",
-    "an edit of the template file changes its modification time (jinja2 re-uses a cached template iff the time is the "
-    "same; the harness sets the time explicitly at every edit; the model shows that an edit which keeps the time is "
-    "served stale, and the render2 stage cases compare exactly that with the real RenderLaTeX)",
-    "a LaTeX command either succeeds (writes the pdf, return code 0) or fails (writes nothing, return code 1); when a "
-    "process is seen terminated (`fin` polls) is decided by the schedule of the case; the pdf is written at launch "
-    "(latexRun / popReturned model the pool; latexRun_yields_iff_ok)",
-    "state kept by elements between runs: the jinja2 template cache of RenderLaTeX (modelled: PipeState, getTemplate, "
-    "runObject; run_independent_of_previous_runs) and the process pool of LaTeXToPDF (empty after a completed run: the "
-    "model runs commands to completion); ToCSV, MakeFilename, Write, PDFToPNG, MapGroup keep none",
+    "increasing along writes (mtime granularity is outside the model); an edit of the template file changes its "
+    "modification time (jinja2 re-uses a cached template iff the time is the same; the harness sets it explicitly; the "
+    "render2 cases compare the stale-cache branch with the real RenderLaTeX)",
+    "ToCSV and jinja2 are functions of their input: csvOf(data), texOf(template, paths of the csv files); the csv text "
+    "is checked against an independent formula for 1-dim integer histograms with default ToCSV options only (2-dim "
+    "histograms, rows(), separators, duplicate_last_bin are C-other territory); select_template callables, "
+    "select_data, from_data and user environments of RenderLaTeX are not modelled (context.output.template is)",
+    "contexts: only context.output (eight keys + write) and the key `name` are modelled; file-name and output-directory "
+    "templates are literals and {{name}}; non-bool values of output.changed are outside",
+    "state kept by elements between runs: the jinja2 template cache of RenderLaTeX (PipeState, getTemplate, runObject; "
+    "run_independent_of_previous_runs) and the process pool of LaTeXToPDF (empty after a completed or interrupted run); "
+    "ToCSV, MakeFilename, Write, PDFToPNG, MapGroup keep none",
     "theorems about freshness assume SourceClosed (every existing pdf has its tex and csv files on disk at the start of "
     "a run); without it the statement is false for the code as it is (history_fresh_full_fails = the known finding)",
 ]
 RULE = ("stage cases (exhaustive small scopes): MakeFilename arguments x name x incoming output (all valid combinations), "
         "Write._make_filename keys x output directories, Write.run mode x existing file {none, same, different} x incoming "
         "changed {unset, True, False} x data kind, LaTeXToPDF overwrite x changed x tex/pdf presence and mtime order, "
-        "PDFToPNG likewise, LaTeXToPDF.run on flows of 2-3 values with per-launch schedules (command succeeds / fails with "
+        "PDFToPNG likewise, values without an output context, Write with a formatted output directory and sequences of "
+        "static contexts, RenderLaTeX with/without context.output.template, MapGroup with 1-3 results per member, "
+        "LaTeXToPDF.run on flows of 2-3 values with per-launch schedules (command succeeds / fails with "
         "return code 1, seen terminated after 0, 1 or many polls) x verbose 0,1,2 x existing pdfs, one RenderLaTeX object over all sequences of 2-3 states (content, mtime) of the template file, "
         "group_plots and _update_with_group over {unset, True, False}^(1..3).  Histories: one plot, first "
         "run then EVERY step of the alphabet data{keep,change} x template{keep,change} x deletion of any subset of "
@@ -2097,7 +2193,8 @@ RULE = ("stage cases (exhaustive small scopes): MakeFilename arguments x name x 
         "twice: with new pipeline objects for every run and with ONE Sequence object re-used for all runs (template "
         "file edited in place, same size, modification time bumped explicitly); further kinds: plain values through the group pipeline (MapGroup "
         "scalars), several plots sharing one file name (model comparison only), the output directory removed between "
-        "runs, Ctrl-C during LaTeXToPDF's wait followed by re-use of the object, MakeFilename(overwrite=True), the default "
+        "runs, Ctrl-C during LaTeXToPDF's wait with commands that have not terminated (all late/early patterns) followed "
+        "by another run of the same or a new object, MakeFilename(overwrite=True), the default "
         "pdflatex command (stub binary); real sh-script converters on a "
         "sample.  Non-trivial: a history of at least two completed runs.")
 LEVEL_TEXT = ("Lean 4 theorems about a transcribed model of the output pipeline over an abstract file system, for all "
@@ -2106,9 +2203,14 @@ LEVEL_TEXT = ("Lean 4 theorems about a transcribed model of the output pipeline 
               "(run_fresh_partial, history_fresh_partial, group_fresh_partial), the proved negation of the unrestricted "
               "statement on the concrete witness (history_fresh_full_fails: a genuine defect that the unedited test-suite "
               "pins, listed as a known finding), idle runs are no-ops, output.changed is sticky, MakeFilename/Write naming "
-              "rules; tied to /repo by a correspondence check that compares file-system snapshots, converter logs and "
+              "rules, the LaTeXToPDF pool with failing / late commands, re-used pipeline objects; 38 theorems carry the "
+              "property, 22 more are audited as auxiliary (refinements between Lean definitions, glue); tied to /repo "
+              "by a correspondence check that compares file-system snapshots, converter logs and "
               "yielded contexts of whole histories, plus a direct freshness/no-redo oracle on the real code.")
-LEVEL_NOTE = ("Trusted: Lean kernel (+ propext, Classical.choice, Quot.sound), the hand transcription validated by the "
+LEVEL_NOTE = ("Hypotheses of the freshness theorems that are not derived: plots have files of their own (UnitsOK), "
+              "one set of plot names/layout per history, commands succeed, SourceClosed; existing_unchanged keeps existing "
+              "sources (effective); several plots are modelled one after the other (the real Sequence interleaves). "
+              "Trusted: Lean kernel (+ propext, Classical.choice, Quot.sound), the hand transcription validated by the "
               "correspondence run, the file-system/converter abstraction, stub converters.  Freshness is proved only for "
               "runs that start SourceClosed; the remaining case is the known finding (checked to be exactly that class).")
 TECHNIQUE = "Lean 4 proof over hand-written model + correspondence check on histories in a temporary directory"
